@@ -45,6 +45,8 @@ def build(cell, seq, named=False):
     g = ufl.Coefficient(ufl.FunctionSpace(mesh, basix.ufl.element("P", cell, 2)))
     k0 = ufl.Constant(mesh)
     k1 = ufl.Constant(mesh, shape=(d,))
+    k2 = ufl.Constant(mesh, shape=(d, d))
+    k3 = ufl.Constant(mesh)
     form = None
     M = {"dx": ufl.dx, "ds": ufl.ds, "dS": ufl.dS, "dP": ufl.dP}
     for n, (t, sid, rule) in enumerate(seq):
@@ -60,10 +62,11 @@ def build(cell, seq, named=False):
         # weight 2^n; every second integral also involves a coefficient / constant so that descriptor counts are exercised
         integrand = float(2 ** n) * vv
         if n % 2 == 1:
-            integrand = integrand * (1.0 + 0 * ff) + float(2 ** n) * 1e-3 * ff * vv * k0
+            # scalar, vector, matrix, scalar constants in this order (descriptor ranks/shapes must stay aligned)
+            integrand = integrand * (1.0 + 0 * ff) + float(2 ** n) * 1e-3 * (ff * k0 + k1[d - 1] + k2[0, d - 1] * k3) * vv
         term = integrand * m
         form = term if form is None else form + term
-    return form, mesh, dict(f=f, g=g, k0=k0, k1=k1)
+    return form, mesh, dict(f=f, g=g, k0=k0, k1=k1, k2=k2, k3=k3)
 
 
 def key(cell, seq):
